@@ -202,6 +202,65 @@ def F14_duplicate_discard():
     return None
 
 
+def F8():
+    """C18: hi-lo equities with no qualifying low."""
+    from pokerkit.analysis import calculate_equities, parse_range
+    e = calculate_equities((parse_range('AsAhKsKh'), parse_range('QsQhJsJh')), Card.parse('AdKdQd9c9d'), 4, 5,
+                           Deck.STANDARD, (OmahaHoldemHand, OmahaEightOrBetterLowHand), sample_count=3)
+    if [round(x, 9) for x in e] != [1.0, 0.0]:
+        return f'calculate_equities gives {e}; the engine pays the whole pot to the first player'
+
+
+def F10():
+    """C13: heads-up with blinds (0, 2) the big blind (seat 0) opens the first betting round."""
+    s = NoLimitTexasHoldem.create_state(ALL, False, 0, (0, 2), 2, 200, 2)
+    if s.actor_index != 1:
+        return f'heads-up blinds (0, 2): bets {s.bets}, first to act is seat {s.actor_index}, the button is seat 1'
+
+
+def F15_muck_keeps_runout_choice():
+    """C14: a player who mucks at an all-in showdown is still offered the run-out choice."""
+    s = NoLimitTexasHoldem.create_state((A.ANTE_POSTING, A.BET_COLLECTION, A.BLIND_OR_STRADDLE_POSTING, A.HOLE_DEALING,
+                                         A.CARD_BURNING, A.BOARD_DEALING, A.HAND_KILLING, A.CHIPS_PUSHING, A.CHIPS_PULLING),
+                                        False, 0, (1, 2), 2, 100, 3, mode=Mode.CASH_GAME)
+    s.complete_bet_or_raise_to(100)
+    s.check_or_call()
+    s.check_or_call()
+    s.show_or_muck_hole_cards(False, 2)     # seat 2 mucks at the all-in showdown
+    if s.can_select_runout_count(None, 2):
+        return 'seat 2 has mucked and is still offered the choice of the number of run-outs'
+
+
+def F16_triple_apostrophe():
+    """C16: a string field containing three apostrophes makes the saved text unloadable (recorded finding)."""
+    game = NoLimitTexasHoldem(ALL, True, 0, (1, 2), 2)
+    s = game(200, 2)
+    name = 'O' + "'" * 3 + 'Hara'
+    hh = HandHistory.from_game_state(game, s, venue=name)
+    try:
+        if HandHistory.loads(hh.dumps()) != hh:
+            return 'loads(dumps(h)) differs'
+    except Exception as e:  # noqa: BLE001
+        return f'venue = {name!r}: {type(e).__name__}: {e}'
+
+
+def F17_show_before_deal():
+    """C16: a show accepted before any card is dealt is written as a muck and cannot be replayed (recorded finding)."""
+    game = NoLimitTexasHoldem((A.ANTE_POSTING, A.BET_COLLECTION, A.CARD_BURNING, A.HAND_KILLING,
+                               A.CHIPS_PUSHING, A.CHIPS_PULLING), True, 1, (1, 2), 2, mode=Mode.CASH_GAME)
+    s = game(200, 2)                            # waiting for the blinds: no street yet
+    try:
+        s.show_or_muck_hole_cards(True, 0)
+    except ValueError:
+        return None
+    hh = HandHistory.from_game_state(game, s)
+    try:
+        for _ in HandHistory.loads(hh.dumps()):
+            pass
+    except ValueError as e:
+        return f'actions {hh.actions}: replay raises {e}'
+
+
 DEMOS = {k: v for k, v in globals().items() if k.startswith('F') and callable(v) and k[1:2].isdigit()}
 
 if __name__ == '__main__':
